@@ -7,7 +7,7 @@ Require Import Base Groups GroupsProofs.
    registrations (method, concatenated path, concatenated handler list: outer group handlers first,
    then inner, then the route's own) of the flat expansion, in the same order; it refuses exactly
    when the expansion does (Combo with the same method twice, empty method list). *)
-Theorem C11_flat : forall p, exec p = flatten p.
+Theorem C11_flat : forall w0 p, exec w0 p = flatten w0 p.
 Proof. exact exec_is_flatten. Qed.
 
 (* leaving a group restores the enclosing scope *)
@@ -24,46 +24,50 @@ Proof. reflexivity. Qed.
 (* a ComboRoute held in a variable reads the AutoHead setting when .Get registers, not when Combo made it;
    a toggle in between counts from there on, also for the statements after the Combo *)
 Theorem C11_combo_autohead_at_get : forall ah b pp ph path common added rest,
-  combo_at ah pp ph path common added (CAuto b :: rest) = combo_at b pp ph path common added rest.
+  combo_at ah pp ph path common added (CAuto b :: rest) = combo_at (mkf b (f_wr ah)) pp ph path common added rest.
 Proof. reflexivity. Qed.
 
 (* .Headers(...) on what Routes returns constrains the route of the last method only *)
 Theorem C11_headers_routes_last : forall hdr l r,
-  mark_last hdr (l ++ [r]) = l ++ [mkfreg (fr_method r) (fr_path r) (fr_hs r) hdr].
+  mark_last hdr (l ++ [r]) = l ++ [mkfreg (fr_method r) (fr_path r) (fr_hs r) hdr (fr_wr r)].
 Proof. exact mark_last_snoc. Qed.
 
 (* handlers are validated and wrapped over the CONCATENATED list: a group handler that is not a function
    refuses the registration just as it would in the flat list, and with a HandlerWrapper installed the
    group handlers are wrapped exactly once like the route's own (what runs is wrapped(outer) ++
    wrapped(inner) ++ wrapped(own)) *)
-Theorem C11_checked_flat : forall p, checked (exec p) = checked (flatten p).
+Theorem C11_checked_flat : forall w0 p, checked (exec w0 p) = checked (flatten w0 p).
 Proof. exact checked_exec_flatten. Qed.
-Theorem C11_group_handlers_wrapped : forall wrap pp ph m path hs hdr,
-  run_trace wrap (reg_at pp ph m path hs hdr) = wrap_list wrap ph ++ wrap_list wrap hs.
+(* ... by the HandlerWrapper in effect when the ROUTE is declared (fs), not when its group was opened *)
+Theorem C11_group_handlers_wrapped : forall fs pp ph m path hs hdr,
+  run_trace (reg_at fs pp ph m path hs hdr) = wrap_list (f_wr fs) ph ++ wrap_list (f_wr fs) hs.
 Proof. exact run_trace_reg_at. Qed.
-Theorem C11_group_handlers_validated : forall pp ph m path hs hdr,
-  callable (reg_at pp ph m path hs hdr) = forallb (fun h => negb (Nat.eqb 0 h)) ph && forallb (fun h => negb (Nat.eqb 0 h)) hs.
+Theorem C11_group_handlers_validated : forall fs pp ph m path hs hdr,
+  callable (reg_at fs pp ph m path hs hdr) = forallb (fun h => negb (Nat.eqb 0 h)) ph && forallb (fun h => negb (Nat.eqb 0 h)) hs.
 Proof. exact callable_reg_at. Qed.
 
 Example C11_example :
-  exec [SAutoHead true; SGroup [47;97]%N [1] [SGet [47;98]%N [2] true; SGroup [47;99]%N [3] [SRoute [80;79;83;84]%N [47;100]%N [4] false]]; SGet [47;101]%N [5] false]
-  = Some [mkfreg m_get [47;97;47;98]%N [1;2] true; mkfreg m_head [47;97;47;98]%N [1;2] false;
-          mkfreg [80;79;83;84]%N [47;97;47;99;47;100]%N [1;3;4] false;
-          mkfreg m_get [47;101]%N [5] false; mkfreg m_head [47;101]%N [5] false].
+  exec false [SAutoHead true; SGroup [47;97]%N [1] [SGet [47;98]%N [2] true; SGroup [47;99]%N [3] [SRoute [80;79;83;84]%N [47;100]%N [4] false]]; SGet [47;101]%N [5] false]
+  = Some [mkfreg m_get [47;97;47;98]%N [1;2] true false; mkfreg m_head [47;97;47;98]%N [1;2] false false;
+          mkfreg [80;79;83;84]%N [47;97;47;99;47;100]%N [1;3;4] false false;
+          mkfreg m_get [47;101]%N [5] false false; mkfreg m_head [47;101]%N [5] false false].
 Proof. vm_compute. reflexivity. Qed.
 
 Example C11_example_combo_toggle :
-  exec [SCombo [47;99]%N [] [CAuto true; CUse m_get [1]]; SCombo [47;100]%N [] [CUse m_get [2]; CAuto false]; SGet [47;101]%N [3] false]
-  = Some [mkfreg m_get [47;99]%N [1] false; mkfreg m_head [47;99]%N [1] false;
-          mkfreg m_get [47;100]%N [2] false; mkfreg m_head [47;100]%N [2] false;
-          mkfreg m_get [47;101]%N [3] false].
+  exec false [SCombo [47;99]%N [] [CAuto true; CUse m_get [1]]; SCombo [47;100]%N [] [CUse m_get [2]; CAuto false]; SGet [47;101]%N [3] false]
+  = Some [mkfreg m_get [47;99]%N [1] false false; mkfreg m_head [47;99]%N [1] false false;
+          mkfreg m_get [47;100]%N [2] false false; mkfreg m_head [47;100]%N [2] false false;
+          mkfreg m_get [47;101]%N [3] false false].
 Proof. vm_compute. reflexivity. Qed.
 
 Example C11_example_headers_wrap :
-  exec [SRoutes [47;120]%N [71;69;84;44;80;85;84]%N [] [7] true] =
-    Some [mkfreg m_get [47;120]%N [7] false; mkfreg [80;85;84]%N [47;120]%N [7] true] /\
-  run_trace true (mkfreg m_get [47]%N [1;3;4] false) = [0;1;0;3;0;4] /\
-  checked (exec [SGroup [47;97]%N [0] [SGet [47;98]%N [2] false]]) = None.
+  exec true [SRoutes [47;120]%N [71;69;84;44;80;85;84]%N [] [7] true] =
+    Some [mkfreg m_get [47;120]%N [7] false true; mkfreg [80;85;84]%N [47;120]%N [7] true true] /\
+  run_trace (mkfreg m_get [47]%N [1;3;4] false true) = [0;1;0;3;0;4] /\
+  (* the wrapper is taken off inside the group: the group handler of the route declared after that is not wrapped *)
+  exec true [SGroup [47;103]%N [1] [SGet [47;97]%N [2] false; SWrapper false; SGet [47;98]%N [3] false]] =
+    Some [mkfreg m_get [47;103;47;97]%N [1;2] false true; mkfreg m_get [47;103;47;98]%N [1;3] false false] /\
+  checked (exec false [SGroup [47;97]%N [0] [SGet [47;98]%N [2] false]]) = None.
 Proof. vm_compute. repeat split. Qed.
 
 Redirect "assum/C11.1" Print Assumptions C11_flat.
